@@ -181,7 +181,13 @@ func (d *DiskFile) Delete() error {
 		panic("tried to delete a file being written")
 	}
 
-	return os.Remove(filepath.Join(d.dir, d.name))
+	// Deleting is idempotent like in the other file systems: the file may
+	// already have been removed by another instance that shared it.
+	err := os.Remove(filepath.Join(d.dir, d.name))
+	if errors.Is(err, os.ErrNotExist) {
+		return nil
+	}
+	return err
 }
 
 func (d *DiskFile) Size() int64 {
